@@ -285,20 +285,373 @@ def sig_part(chk, tier, bindirs):
                       "signal_crashes": sum(1 for _, _, evs in runs for e in evs if e["op"] == "died")})
 
 
+# ------------------------------------------------------------------------------------ get_pass
+BUFLEN = 8
+TYPED_SHORT = b"pw1\n"
+
+
+def gp_realise(scn):
+    """scenario (path of GetPass.tla) -> (typed bytes or None, sysinj rules, description)"""
+    typed = None
+    rules = []
+    nread = 0
+    faulted = False
+    for st in scn["path"]:
+        step, out = st["step"], st["out"]
+        if step == "get" and out == "fail":
+            rules.append("win=getpass,nr=ioctl,k=1,ret=-25")
+        elif step == "set" and out == "fail":
+            rules.append("win=getpass,nr=ioctl,k=2,ret=-5")
+        elif step == "restore" and out == "fail":
+            rules.append("win=getpass,nr=ioctl,k=3,ret=-5")
+        elif step == "read":
+            nread = 1
+            if out == "short":
+                typed = TYPED_SHORT
+            elif out == "exact":
+                typed = b"abcdefg\n"
+            elif out == "eof":
+                typed = b"\x04"
+            elif out == "badutf8":
+                typed = b"\xff\xfe\n"
+            elif out == "full":
+                typed = b"abcdefgh"
+            else:
+                typed = TYPED_SHORT
+                faulted = True
+                rules.append("win=getpass,nr=read,k=1,ret=%d" % {"zero": 0, "eio": -5, "eintr": -4}[out])
+        elif step == "drain":
+            nread += 1
+            if out == "more":
+                typed += b"ijklmnop"
+            elif out == "short":
+                typed += b"xy\n"
+            elif out == "nl_last":
+                typed += b"1234567\n"
+            else:
+                typed += b"zz\n"
+                faulted = True
+                rules.append("win=getpass,nr=read,k=%d,ret=%d" % (nread, 0 if out == "zero" else -5))
+    return typed, rules, faulted
+
+
+def gp_run_one(chk, binp, scn, n):
+    """one scenario on a fresh pty pair; returns the event list for GetPassTrace"""
+    import select
+    import termios
+    import time
+    from checks import sysinj_common as SJ
+    typed, rules, faulted = gp_realise(scn)
+    m, s = os.openpty()
+    try:
+        a = termios.tcgetattr(s)
+        lf = a[3] & ~(termios.ECHO | termios.ECHONL)
+        if scn["orig"]["echo"]:
+            lf |= termios.ECHO
+        if scn["orig"]["echonl"]:
+            lf |= termios.ECHONL
+        a[3] = lf
+        termios.tcsetattr(s, termios.TCSANOW, a)
+        orig = termios.tcgetattr(m)
+        log = os.path.join(chk.work, "gp_%d.ndjson" % n)
+        if os.path.exists(log):
+            os.unlink(log)
+        cmd = [SJ.SYSINJ, "-o", log, "-t", "20", "-w"]
+        for r in rules:
+            cmd += ["-r", r]
+        cmd += ["--", binp, "getpass", "0" if scn["empty"] else str(BUFLEN)]
+        p = subprocess.Popen(cmd, stdin=s, stdout=subprocess.PIPE, stderr=subprocess.PIPE)
+        during = None
+        t0 = time.time()
+        ready = False
+        if typed is not None:
+            # wait until the function has switched echo off (or has already answered)
+            while time.time() - t0 < 0.4:
+                lnow = termios.tcgetattr(m)[3]
+                if not (lnow & termios.ECHO) and (lnow & termios.ECHONL):
+                    during = lnow
+                    break
+                if select.select([p.stdout], [], [], 0.0005)[0]:
+                    ready = True
+                    break
+            if not ready:
+                if during is None:
+                    during = termios.tcgetattr(m)[3]
+                os.write(m, typed)
+        line = b""
+        if select.select([p.stdout], [], [], 5.0)[0]:
+            line = p.stdout.readline()
+        hang = not line
+        if hang:
+            p.kill()
+        try:
+            p.wait(timeout=10)
+        except subprocess.TimeoutExpired:
+            p.kill()
+            p.wait()
+        p.stdout.close()
+        p.stderr.close()
+        echoed = b""
+        while select.select([m], [], [], 0.002)[0]:
+            try:
+                chunk = os.read(m, 4096)
+            except OSError:
+                break
+            if not chunk:
+                break
+            echoed += chunk
+        final = termios.tcgetattr(m)
+    finally:
+        os.close(m)
+        os.close(s)
+    from checks import sysinj_common as SJ2
+    sysev = [e for e in SJ2.read_log(log) if e.get("ev") == "sys" and e.get("win") == 1 and e.get("src") == "exe"]
+    ev = [{"e": "start", "seq": n, "orig": scn["orig"], "empty": scn["empty"]}, {"e": "begin"}]
+    cur = 0
+    first_read = True
+    first_bytes = None
+    tb = typed or b""
+    for e in sysev:
+        if e["name"] == "ioctl" and e["args"][0] == 0:
+            req = e["args"][1]
+            ev.append({"e": "ioctl", "req": "TCGETS" if req == 0x5401 else "TCSETS" if req in (0x5402, 0x5403, 0x5404) else "other", "ok": e["ret"] == 0})
+        elif e["name"] == "read" and e["args"][0] == 0:
+            if first_read and during is not None:
+                ev.append({"e": "during", "echo": bool(during & termios.ECHO), "echonl": bool(during & termios.ECHONL)})
+            ret = e["ret"]
+            if ret < 0:
+                cls = "err"
+                got = b""
+            else:
+                got = tb[cur:cur + ret] if "inj" not in e else b""
+                if "inj" not in e:
+                    cur += ret
+                cls = "full" if (ret == e["args"][2] and ret > 0 and not got.endswith(b"\n")) else "fits"
+            if first_read:
+                first_bytes = got
+            first_read = False
+            ev.append({"e": "read", "cls": cls})
+        else:
+            ev.append({"e": "ioctl", "req": "other", "ok": True})
+    res = {}
+    if line:
+        try:
+            res = json.loads(line)
+        except ValueError:
+            res = {}
+    leak = any(b not in b"\r\n" for b in echoed)
+    ev.append({"e": "echoed", "leak": bool(leak)})
+    rk = "hang" if hang else res.get("res", "none")
+    got = bytes(res.get("bytes", [])) if rk == "ok" else b""
+    try:
+        (first_bytes or b"").decode("utf-8")
+        valid = True
+    except UnicodeDecodeError:
+        valid = False
+    ev.append({"e": "ret", "res": rk, "bytes_ok": rk == "ok" and first_bytes is not None and got == first_bytes, "valid_utf8": valid,
+               "left": len(res.get("left", [])), "faulted": faulted})
+    same = final == orig
+    ev.append({"e": "final", "same": bool(same), "echo": bool(final[3] & termios.ECHO), "echonl": bool(final[3] & termios.ECHONL)})
+    info = {"scenario": scn, "typed": list(tb), "rules": rules, "result": res, "echoed": list(echoed),
+            "lflag_orig": orig[3], "lflag_during": during, "lflag_final": final[3],
+            "syscalls": [[e["name"], e["args"][1] if e["name"] == "ioctl" else e["args"][2], e["ret"], "inj" in e] for e in sysev]}
+    return ev, info
+
+
+def gp_canaries():
+    st = {"e": "start", "orig": {"echo": True, "echonl": False}, "empty": False}
+    g, s_, r_ = ({"e": "ioctl", "req": "TCGETS", "ok": True}, {"e": "ioctl", "req": "TCSETS", "ok": True}, {"e": "read", "cls": "fits"})
+    dur = {"e": "during", "echo": False, "echonl": True}
+    ech = {"e": "echoed", "leak": False}
+
+    def ret(**kw):
+        e = {"e": "ret", "res": "ok", "bytes_ok": True, "valid_utf8": True, "left": 0, "faulted": False}
+        e.update(kw)
+        return e
+
+    def fin(same=True):
+        return {"e": "final", "same": same, "echo": True, "echonl": False}
+    b = {"e": "begin"}
+    return [
+        ([st, b, g, s_, dur, {"e": "read", "cls": "err"}, ech, ret(res="err"), fin(False)], "ReturnWithoutRestore"),
+        ([st, b, g, s_, dur, {"e": "read", "cls": "err"}, ech, ret(res="err"), fin(False)], "NotRestored"),
+        ([st, b, g, s_, dict(dur, echo=True), r_, s_, ech, ret(), fin()], "EchoOnWhileReading"),
+        ([st, b, g, s_, dur, r_, s_, {"e": "echoed", "leak": True}, ret(), fin()], "PasswordEchoed"),
+        ([st, b, g, r_, ech, ret(), fin()], "UnexpectedSyscall"),
+        ([st, b, g, s_, dur, {"e": "read", "cls": "full"}, r_, s_, ech, ret(), fin()], "OkWithoutLine"),
+        ([st, b, g, s_, dur, {"e": "read", "cls": "full"}, s_, ech, ret(res="err", left=5), fin()], "UnexpectedSyscall"),
+        ([st, b, g, s_, dur, {"e": "read", "cls": "full"}, r_, s_, ech, ret(res="err", left=5), fin()], "NotDrained"),
+        ([st, b, g, s_, dur, r_, s_, ech, ret(bytes_ok=False), fin()], "WrongBytes"),
+        ([st, b, g, s_, dur, r_, s_, ech, ret(res="err"), fin()], "ErrForGoodLine"),
+        ([st, b, g, s_, dur, r_, s_, ech, ret(valid_utf8=False), fin()], "OkForInvalidUtf8"),
+        ([st, b, g, s_, dur, r_, s_, ech, ret(), fin(False)], "NotRestored"),
+        ([st, b, ech, ret(res="ok"), fin()], "ReturnedEarly"),
+        ([st, b, g, s_, dur, r_, s_, ech, ret(res="panic"), fin()], "Panicked"),
+    ]
+
+
+def gp_part(chk, tier, bindir):
+    from checks import sysinj_common as SJ
+    SJ.build_tracer()
+    out = {}
+    res = core.run_tlc("GetPass.tla", "GetPass_MC.cfg", workers=1, timeout=300, xmx="1g")
+    core.tlc_must_pass(res, "GetPass_MC")
+    chk.add_tlc(res)
+    out["GetPass_MC"] = res.distinct
+    for p in ("ProbeSmall", "ProbeRestoreFailed"):
+        res = core.run_tlc("GetPass.tla", "GetPass_MC_%s.cfg" % p, workers=1, timeout=300, xmx="1g")
+        if p not in res.invariant_violated:
+            raise core.ToolError("GetPass probe %s not reachable" % p)
+    cfg = os.path.join(chk.work, "GetPassGen_%s.cfg" % tier)
+    with open(cfg, "w") as f:
+        f.write("CONSTANTS\n  MaxDrain = %d\nINIT GInit\nNEXT GNext\nINVARIANT Emit\nCHECK_DEADLOCK FALSE\n" % (1 if tier == "quick" else 2))
+    res = core.run_tlc("GetPassGen.tla", cfg, workers=1, timeout=300, xmx="1g")
+    core.tlc_must_pass(res, "GetPassGen")
+    chk.add_tlc(res)
+    scns = res.printed("SCN")
+    if len(scns) < 40 or len({json.dumps(x, sort_keys=True) for x in scns}) != len(scns):
+        raise core.ToolError("GetPassGen produced %d scenarios" % len(scns))
+    binp = os.path.join(bindir, "sigops")
+    trace, infos = [], {}
+    for n, scn in enumerate(scns):
+        ev, info = gp_run_one(chk, binp, scn, n)
+        infos[n] = info
+        trace += ev
+    CAN = 10 ** 6
+    expected = {}
+    for n, (c, why) in enumerate(gp_canaries()):
+        cid = CAN + n + 1
+        trace += [dict(e, seq=cid) if e["e"] == "start" else e for e in c]
+        expected[cid] = why
+    path = os.path.join(chk.work, "getpass_trace_%s.ndjson" % tier)
+    core.write_ndjson(path, trace)
+    res = core.run_tlc("GetPassTrace.tla", "GetPassTrace.cfg", workers=1, env={"TRACE": path}, timeout=900, xmx="2g", deque=True)
+    core.tlc_must_pass(res, "GetPassTrace")
+    chk.add_tlc(res)
+    done = res.printed("DONE")
+    if len(done) != 1 or done[0]["events"] != len(trace):
+        raise core.ToolError("GetPassTrace consumed %s of %d events: %s" % (done and done[0]["events"], len(trace), res.out[-1500:]))
+    caught = {}
+    for b in done[0]["bad"]:
+        if b["seq"] >= CAN:
+            caught.setdefault(b["seq"], set()).update(b["reasons"])
+    missed = [(c, why) for c, why in expected.items() if why not in caught.get(c, set())]
+    if missed:
+        raise core.ToolError("GetPassTrace accepted corrupted sequences (vacuous judge): %s" % missed)
+    chk.extra["getpass_corrupted_sequences_rejected"] = len(expected)
+    for b in done[0]["bad"]:
+        if b["seq"] >= CAN:
+            continue
+        info = infos[b["seq"]]
+        path_ = info["scenario"]["path"]
+        last = path_[-1] if path_ else {"step": "none", "out": "none"}
+        # the step whose outcome leads to the rejected exit path
+        odd = [st for st in path_ if st["out"] in ("fail", "eio", "eintr")]
+        where = odd[0] if odd else last
+        for reason in b["reasons"]:
+            sig = {"part": "getpass", "reason": reason, "step": where["step"], "outcome": where["out"]}
+            chk.violate(sig, "get_pass: %s (at the recorded '%s' event, required state %s); scenario %s typed %s rules %s; syscalls %s; lflag orig=%x during=%s final=%x; result %s" % (
+                reason, b["e"], b["pc"], json.dumps(path_), bytes(info["typed"]), info["rules"], info["syscalls"], info["lflag_orig"],
+                "%x" % info["lflag_during"] if info["lflag_during"] is not None else "-", info["lflag_final"], json.dumps(info["result"])[:200]),
+                {"part": "getpass", "scenario": info["scenario"], "typed": info["typed"], "rules": info["rules"]})
+    chk.traces += len(scns)
+    chk.evaluations += len(scns)
+    chk.nontrivial += sum(1 for sc in scns if sc["path"] and any(st["step"] == "read" for st in sc["path"]))
+    chk.sample({"getpass_scenario": scns[len(scns) // 2]["path"], "recorded": infos[len(scns) // 2]["syscalls"],
+                "lflags": [infos[len(scns) // 2]["lflag_orig"], infos[len(scns) // 2]["lflag_during"], infos[len(scns) // 2]["lflag_final"]]})
+    chk.extra.update({"getpass_scenarios": len(scns), "getpass_model_checking": out,
+                      "getpass_scenarios_with_fault": sum(1 for i_ in infos.values() if i_["rules"])})
+
+
+# ------------------------------------------------------------------------------------ errno
+def errno_reference():
+    """number -> set of names, from the kernel's uapi headers (aliases included)"""
+    ref, alias = {}, {}
+    for h in ("/usr/include/asm-generic/errno-base.h", "/usr/include/asm-generic/errno.h"):
+        for line in open(h):
+            m = re.match(r"#define\s+(E[A-Z0-9]+)\s+(\S+)", line)
+            if not m:
+                continue
+            if m.group(2).isdigit():
+                ref.setdefault(int(m.group(2)), set()).add(m.group(1))
+                alias[m.group(1)] = int(m.group(2))
+            elif m.group(2) in alias:
+                ref[alias[m.group(2)]].add(m.group(1))
+    if len(ref) < 130:
+        raise core.ToolError("errno reference table has only %d entries" % len(ref))
+    return ref
+
+
+def errno_part(chk, tier, bindir):
+    p = core.run_cmd([os.path.join(bindir, "sigops"), "errno"], timeout=60)
+    ref = errno_reference()
+    rows = []
+    for line in p.stdout.splitlines():
+        r = json.loads(line)
+        m = re.match(r"^(E[A-Z0-9]+): ", r["as_str"])
+        rows.append({"code": r["code"], "raw": r["raw"], "panic": r["panic"], "eq_self": r["eq_self"], "recognised": bool(m),
+                     "name": m.group(1) if m else "", "refs": sorted(ref.get(r["code"], [])),
+                     "display_ok": r["display"] == "[%d]: %s" % (r["code"], r["as_str"])})
+    if len(rows) < 200:
+        raise core.ToolError("errno table has only %d rows" % len(rows))
+    # anti-vacuity: corrupted rows that must be listed
+    CAN = 5000
+    base = {"panic": False, "eq_self": True, "recognised": True, "display_ok": True}
+    can = [dict(base, code=CAN + 1, raw=7, name="ECANA", refs=["ECANA"]),
+           dict(base, code=CAN + 2, raw=CAN + 2, name="ECANB", refs=["ECANB"], panic=True),
+           dict(base, code=CAN + 3, raw=CAN + 3, name="ECANC", refs=["ENOENT"]),
+           dict(base, code=CAN + 4, raw=CAN + 4, name="ECAND", refs=["ECAND"], display_ok=False),
+           dict(base, code=CAN + 5, raw=CAN + 5, name="ECANE", refs=["ECANE"]),
+           dict(base, code=CAN + 6, raw=CAN + 6, name="ECANE", refs=["ECANE"])]
+    path = os.path.join(chk.work, "errno_rows.ndjson")
+    core.write_ndjson(path, rows + can)
+    res = core.run_tlc("ErrnoTable.tla", "ErrnoTable.cfg", workers=1, env={"TRACE": path}, timeout=300, xmx="1g")
+    core.tlc_must_pass(res, "ErrnoTable")
+    out = res.printed("ERRNO")
+    if len(out) != 1 or out[0]["rows"] != len(rows) + len(can):
+        raise core.ToolError("ErrnoTable judged %s rows of %d" % (out and out[0]["rows"], len(rows) + len(can)))
+    bad = out[0]["bad"]
+    bad = list(bad.values()) if isinstance(bad, dict) else bad
+    if {b["code"] for b in bad if b["code"] > CAN} != {CAN + 1, CAN + 2, CAN + 3, CAN + 4, CAN + 5, CAN + 6}:
+        raise core.ToolError("ErrnoTable accepted corrupted rows (vacuous judge): %s" % bad)
+    for b in bad:
+        if b["code"] > CAN:
+            continue
+        row = [r for r in rows if r["code"] == b["code"]][0]
+        for reason in b["reasons"]:
+            chk.violate({"part": "errno", "reason": reason, "code": b["code"]},
+                        "Errno::new(%d): %s - as_str names %r, the kernel's names for %d are %s" % (b["code"], reason, row["name"], b["code"], row["refs"]),
+                        {"part": "errno", "code": b["code"]})
+    rec = sum(1 for r in rows if r["recognised"])
+    chk.evaluations += len(rows)
+    chk.nontrivial += rec
+    missing = sorted(c for c in ref if not any(r["code"] == c and r["recognised"] for r in rows))
+    chk.extra.update({"errno_rows": len(rows), "errno_codes_with_a_name": rec, "errno_kernel_codes_without_a_name": missing})
+
+
 def run(tier):
     chk = core.Check("X03", tier, "model_checking")
     bindirs = {"debug": core.cargo_build(bins=["sigops"]), "release": core.cargo_build(bins=["sigops"], release=True)}
     sig_part(chk, tier, bindirs)
+    gp_part(chk, tier, bindirs["release"])
+    errno_part(chk, tier, bindirs["release"])
     chk.rule = ("signals: TLC simulates SignalGen over the five signals and six dispositions of the API; every distinct walk is one operation "
-                "sequence executed in a forked child through add_signal_action with raw tgkill/kill raises; every recorded micro event "
-                "(install, raise, handler entered, handler returned, operation over, wait status of a forked copy) is one step of Signal.tla "
-                "replayed by TLC (SignalTrace). evaluations = operations executed; non-trivial = operations in which a handler ran or a "
-                "default action terminated a forked copy")
+                "sequence executed in a forked child through add_signal_action with raw tgkill/kill raises (optimised build; a sample also in the "
+                "unoptimised build); every recorded micro event (install, raise, handler entered, handler returned, operation over, wait status of a "
+                "forked copy) is one step of Signal.tla replayed by TLC (SignalTrace). get_pass: every complete behaviour of GetPass.tla (fault at "
+                "each system call, line shapes, 4 initial flag combinations) is one scenario run on a real pty pair under the ptrace injector; the "
+                "recorded system calls, the flags sampled from the master side, the echoed bytes and the result are replayed by TLC (GetPassTrace). "
+                "errno: one row per code judged by ErrnoTable. evaluations = signal operations + get_pass scenarios + errno rows; non-trivial = "
+                "operations in which a handler ran or a default action terminated a forked copy + scenarios that reach the read + codes with a name")
     chk.assumptions = [
         "x86_64 only; SIGKILL/SIGSTOP cannot be named through CatchSignal (compile-time), so a failing install has no reachable case",
         "the API documents neither the signal mask during a handler nor SA_RESTART: both nesting orders and both outcomes (restart, EINTR) of an interrupted read are admitted",
         "the kernel's view of the dispositions is read with libc's sigaction, signals are raised with raw tgkill/kill; the helper thread blocks every signal except while it raises one at itself",
-        "not covered: real-time signals, sigaltstack, SA_RESETHAND/SA_NODEFER (not reachable through the API), faults that re-execute an instruction (SEGV is only raised with tgkill)",
+        "signals not covered: real-time signals, sigaltstack, SA_RESETHAND/SA_NODEFER (not reachable through the API), faults that re-execute an instruction (SEGV is only raised with tgkill)",
+        "get_pass: the terminal is a pty pair in canonical mode, 8-byte buffer; faults are forced results of the function's own ioctl/read calls (ptrace); "
+        "a failed restoring tcsetattr excuses a terminal that is not restored; Ok/Err is judged, the error text is not",
+        "get_pass: 'echo off while reading' is observed from the master side (flags sampled once the function has switched them, bytes echoed back to the master)",
+        "errno: names are compared with the kernel's uapi headers (aliases admitted); a kernel code without a name in the table is reported, not a violation",
     ]
     return chk.finish()
 
